@@ -179,6 +179,11 @@ func ParseMessageWithDataDictionary(
 	return doParsing(mp)
 }
 
+// errNoMoreFields is returned when the message runs out of fields before its CheckSum.
+func errNoMoreFields(mp *msgParser) error {
+	return parseError{OrigError: fmt.Sprintf("Message ends without CheckSum after %d fields", len(mp.msg.fields))}
+}
+
 // doParsing executes the message parsing process.
 func doParsing(mp *msgParser) (err error) {
 	mp.msg.Header.rwLock.Lock()
@@ -213,6 +218,9 @@ func doParsing(mp *msgParser) (err error) {
 
 	// Get body length.
 	mp.fieldIndex++
+	if mp.fieldIndex >= len(mp.msg.fields) {
+		return errNoMoreFields(mp)
+	}
 	mp.parsedFieldBytes = &mp.msg.fields[mp.fieldIndex]
 	if mp.rawBytes, err = extractSpecificField(mp.parsedFieldBytes, tagBodyLength, mp.rawBytes); err != nil {
 		return
@@ -221,6 +229,9 @@ func doParsing(mp *msgParser) (err error) {
 
 	// Get msg type.
 	mp.fieldIndex++
+	if mp.fieldIndex >= len(mp.msg.fields) {
+		return errNoMoreFields(mp)
+	}
 	mp.parsedFieldBytes = &mp.msg.fields[mp.fieldIndex]
 	if mp.rawBytes, err = extractSpecificField(mp.parsedFieldBytes, tagMsgType, mp.rawBytes); err != nil {
 		return
@@ -235,6 +246,9 @@ func doParsing(mp *msgParser) (err error) {
 	mp.foundBody = false
 	mp.foundTrailer = false
 	for {
+		if mp.fieldIndex >= len(mp.msg.fields) {
+			return errNoMoreFields(mp)
+		}
 		mp.parsedFieldBytes = &mp.msg.fields[mp.fieldIndex]
 		if xmlDataLen > 0 {
 			mp.rawBytes, err = extractXMLDataField(mp.parsedFieldBytes, mp.rawBytes, xmlDataLen)
@@ -312,6 +326,11 @@ func parseGroup(mp *msgParser, tags []Tag) {
 
 	for {
 		mp.fieldIndex++
+		if mp.fieldIndex >= len(mp.msg.fields) {
+			// No trailer: doParsing reports the error when it looks for the next field.
+			mp.msg.Body.add(dm)
+			return
+		}
 		mp.parsedFieldBytes = &mp.msg.fields[mp.fieldIndex]
 		mp.rawBytes, _ = extractField(mp.parsedFieldBytes, mp.rawBytes)
 		mp.trailerBytes = mp.rawBytes
